@@ -150,6 +150,22 @@ def rule_r2(ctx: Context, R: Reporter, T: Tracer):
         unknown = [o for o in origs if o.kind in ("unknown", "call")]
         if unknown:
             raise AnalysisError(f"C09.r2: provenance of seed argument at {s.loc} not decidable: {unknown[:3]}")
+        # seed(None) re-seeds the process-wide stream from OS entropy: where the argument may be None the call must
+        # sit under an `is not None` guard on that argument
+        if s.kind == "seed" and any(o.kind == "none" for o in origs):
+            from ..util import conds_holding_at as _cha
+            from ..util import split_cond as _split
+
+            sflow = flow_of(s.func.node)
+            guarded = False
+            for (t, pol) in (_cha(sflow.cfg, at) if at is not None else []):
+                for (a, p) in _split(t, pol):
+                    if isinstance(a, ast.Compare) and len(a.ops) == 1 and isinstance(a.comparators[0], ast.Constant) and a.comparators[0].value is None \
+                            and norm_text(a.left) == norm_text(arg) and ((isinstance(a.ops[0], ast.IsNot) and p) or (isinstance(a.ops[0], ast.Is) and not p)):
+                        guarded = True
+            R.check("C09.r2", "a seeding call whose argument may be None is guarded by `is not None`", guarded, s.func, s.call,
+                    msg=f"{s.func.short}: `{unparse(s.call)}` can run with None (origins {[repr(o) for o in origs if o.kind == 'none'][:2]}): numpy then re-seeds the global stream from OS "
+                        f"entropy, so a seeded run is no longer reproducible and the stream no longer depends on the seed in force", key=f"seed-none-guard:{s.func.short}")
         in_iter = s.func.qualname in iter_reach
         if in_iter:
             # chains that start at the pipeline's own call sites: the seed must be None on all of them
